@@ -362,6 +362,90 @@ Definition add_frame_to_tree_by_name (t : tree) (rows : list row) : res tree :=
   end.
 
 (* ---------------------------------------------------------------------------------------- *)
+(* histories: add_path_to_tree calls interleaved with structural edits made through the node API
+   (basenode.py parent setter 187-231, node.py __delitem__ 237-247, basenode.py sort 745-)        *)
+
+Fixpoint pos_of_names (t : tree) (rest : list str) : option pos :=
+  match rest with
+  | [] => Some []
+  | nm :: rest' =>
+      match find_idx nm 0 (tkids t) with
+      | i :: _ => match nth_error (tkids t) i with
+                  | Some k => match pos_of_names k rest' with Some p => Some (i :: p) | None => None end
+                  | None => None
+                  end
+      | [] => None
+      end
+  end.
+(* names: the root's name first *)
+Definition pos_of_path (t : tree) (p : list str) : option pos :=
+  match p with
+  | r :: rest => if str_eqb r (tname t) then pos_of_names t rest else None
+  | [] => None
+  end.
+
+Fixpoint remove_nth {A} (i : nat) (l : list A) : list A :=
+  match l with [] => [] | x :: r => match i with 0 => r | S j => x :: remove_nth j r end end.
+Fixpoint remove_at (p : pos) (t : tree) : tree :=
+  match p with
+  | [] => t
+  | [i] => match t with T g n a ks => T g n a (remove_nth i ks) end
+  | i :: p' => match t with T g n a ks => T g n a (upd_nth i (remove_at p') ks) end
+  end.
+Fixpoint insert_sorted (k : tree) (l : list tree) : list tree :=
+  match l with
+  | [] => [k]
+  | x :: r => if str_ltb (tname k) (tname x) then k :: l else x :: insert_sorted k r
+  end.
+(* list.sort(key=name) is stable; sibling names are distinct anyway *)
+Definition sort_kids (t : tree) : tree :=
+  match t with T g n a ks => T g n a (fold_right insert_sorted [] ks) end.
+
+
+Inductive hop :=
+| HAdd (path : str) (na : attrs)        (* add_path_to_tree(root, path, sep, dup, node_attrs)              *)
+| HDel (p : list str)                   (* del parent[name]: the node at name path p is detached            *)
+| HMove (src dst : list str)            (* node(src).parent = node(dst): appended as dst's last child       *)
+| HSort (p : list str).                 (* node(p).sort(key=lambda n: n.node_name)                           *)
+
+(* one structural edit; nodes are addressed by their name path in the tree as it is now *)
+Definition hedit (t : tree) (op : hop) : option tree :=
+  match op with
+  | HAdd _ _ => Some t
+  | HDel p => match pos_of_path t p with Some q => Some (remove_at q t) | None => None end
+  | HMove src dst =>
+      match pos_of_path t src with
+      | Some q =>
+          match subtree_at t q with
+          | Some sub =>
+              let t1 := remove_at q t in
+              match pos_of_path t1 dst with
+              | Some d => Some (upd_at d (add_kid sub) t1)
+              | None => None
+              end
+          | None => None
+          end
+      | None => None
+      end
+  | HSort p => match pos_of_path t p with Some q => Some (upd_at q sort_kids t) | None => None end
+  end.
+
+(* the trace of a history: for every add (tree before, path, attributes, (tree after, returned position)) *)
+Fixpoint hrun (tsep sep : str) (dup : bool) (t : tree) (ops : list hop)
+  : list (tree * str * attrs * (tree * res pos)) :=
+  match ops with
+  | [] => []
+  | HAdd path na :: rest =>
+      let r := add_path_to_tree t tsep path sep dup na in
+      (t, path, na, r) :: hrun tsep sep dup (fst r) rest
+  | op :: rest =>
+      match hedit t op with
+      | Some t' => hrun tsep sep dup t' rest
+      | None => []
+      end
+  end.
+
+(* ---------------------------------------------------------------------------------------- *)
 (* the entry points as one function                                                           *)
 
 Inductive kind :=
